@@ -290,6 +290,18 @@ pub fn check_parse(bytes: &[u8], stats: &mut Stats, viol: &mut Vec<Violation>, s
                     viol.push(
                         Violation::new("C03", "accepted-malformed", format!("malformed datagram ({}) accepted: {}", r, short(bytes))).with_sig(r),
                     );
+                    // C02 speaks about every byte string the parser accepts,
+                    // also those it should not have: re-encoding must give the
+                    // input back (grammar-free form of the two permitted
+                    // differences: a trailing marker, the payload of a 0.00)
+                    if let Ok(Ok(out)) = guard(|| p.to_bytes_unlimited()) {
+                        let ok = out == bytes
+                            || (bytes.last() == Some(&0xFF) && out == bytes[..bytes.len() - 1])
+                            || (bytes.len() > out.len() && bytes[1] == 0 && bytes.starts_with(&out) && bytes[out.len()] == 0xFF);
+                        if !ok {
+                            viol.push(Violation::new("C02", "reencode", format!("accepted (malformed: {}) {} re-encodes to {}", r, short(bytes), short(&out))).with_sig("reencode-of-malformed"));
+                        }
+                    }
                 }
                 Verdict::Either(_, f) | Verdict::MustAccept(f) => {
                     let ok = p.header.get_version() == f.b0 >> 6
